@@ -75,6 +75,12 @@ impl Story {
         Story::pointer_at_path(&self.main_content_container, &path_to_choose)?;
         StoryState::values_from_arguments(args)?;
 
+        // The nested continue would check the external bindings only after the
+        // evaluation frame has been pushed: check them while nothing is changed
+        if !self.has_validated_externals {
+            self.validate_external_bindings()?;
+        }
+
         if reset_call_stack {
             self.reset_callstack()?;
         } else {
